@@ -4,7 +4,9 @@ The REAL credits mode, attract mode and game mode run on MPF's TimeTravelLoop (v
 test case: no ball devices).  Generated configurations (price / tiers / coin values / cap / expiry times /
 free-play at boot) × generated op sequences (coin switches single and several per tick, service credits,
 credit events, start presses single and in bursts, ball drains, game ends, waits across the expiry deadlines,
-enable_credit_play / enable_free_play / toggle_credit_play repeated, credits_reset, earnings_reset).
+enable_credit_play / enable_free_play / toggle_credit_play repeated, credits_reset, earnings_reset; a
+`game_starting` queue handler that holds the game start for a generated virtual delay with ops placed inside
+that window; the documented `game_start` bypass event).
 
 After EVERY step the oracle compares, at the boundary the property names:
   * machine var credit_units (and credits_value / credits_string / credits_* display vars) against a
@@ -48,6 +50,15 @@ ASSUMPTIONS = [
     "only the coin audits (count/earnings per type and per label) are compared, not awards or paid-game counters",
     "balance is observed at rest 0.05 virtual seconds after each step; gate/deduction are observed by handlers "
     "around player_added / player_add_request / request_to_start_game",
+    "the start approval (request_to_start_game) and the add of the first player are separate steps: whatever "
+    "happens in between (held game_starting queue, credits_reset, mode toggles) or however the game mode was "
+    "started (game_start event), a player added while credit play is on needs a full price at ITS add time; a "
+    "game that stays without players because the add was denied is accepted",
+    "the game_start bypass event is only posted while no game is running",
+    "a player whose add request was approved in free play and whose player_added is dispatched after credit play "
+    "was enabled in the same instant may or may not be charged (accepted either way, balance resynchronised)",
+    "mode switches, credits_reset and credit events take effect at the position where MPF dispatches the event "
+    "(observed by a lowest-priority handler on the same event), not at the instant the op posted it",
 ]
 HORIZONS = {"settle_s": 0.05, "max_wait_s": 700}
 TIERS = {
@@ -55,9 +66,10 @@ TIERS = {
     "thorough": {"cases": 120000, "batch": 500, "case_timeout": 120},
 }
 MIN_EVALS = {
-    "quick": {"balance": 60000, "bounds": 60000, "earnings": 60000, "display": 30000, "gate": 4000, "deduct": 2000},
+    "quick": {"balance": 60000, "bounds": 60000, "earnings": 60000, "display": 30000, "gate": 4000, "deduct": 2000,
+              "first_player_gate": 800},
     "thorough": {"balance": 3000000, "bounds": 3000000, "earnings": 3000000, "display": 1500000, "gate": 200000,
-                 "deduct": 100000},
+                 "deduct": 100000, "first_player_gate": 30000},
 }
 SHRINK_KEYS = ["ops"]
 
@@ -116,6 +128,8 @@ def _gen_cfg(rng):
             "free_play": rng.random() < 0.15, "balls_per_game": rng.choice([1, 1, 2, 3]),
             "max_players": rng.choice([1, 2, 3, 4, 4]), "award": rng.choice([1, 1, 2]),
             "decimal": decimal,
+            # game_starting is held by a queue handler for this many virtual seconds (0 = not held)
+            "hold_s": rng.choice([0, 0, 0, 0, 0.12, 0.3, 1.0, 3.0]),
         }
     raise RuntimeError("no well-formed configuration found")
 
@@ -130,7 +144,11 @@ def _gen_ops(rng, cfg, n):
     if cfg["t_frac"] and cfg["t_all"]:
         waits.append(abs(cfg["t_all"] - cfg["t_frac"]))
     phase = rng.choice(["mixed", "mixed", "coins_first", "toggly"])
+    hold = cfg.get("hold_s", 0)
+    window = ["credits_reset", "credits_reset", "efp", "ecp", "toggle", "toggle", "coin", "start", "wait"]
     for i in range(n):
+        if len(ops) >= n:
+            break
         r = rng.random()
         if phase == "coins_first" and i < n // 3:
             r *= 0.45
@@ -146,6 +164,12 @@ def _gen_ops(rng, cfg, n):
             ops.append(["award"])
         elif r < 0.63:
             ops.append(["start"])
+            if hold and rng.random() < 0.7:
+                # ops inside the window between start approval and the add of the first player
+                for _ in range(rng.choice([1, 1, 2, 3])):
+                    w = rng.choice(window)
+                    ops.append(["coin", rng.randrange(ncoins)] if w == "coin" else
+                               ["wait", rng.choice([0.02, 0.1, hold])] if w == "wait" else [w])
         elif r < 0.67:
             ops.append(["starts", rng.choice([2, 2, 3])])
         elif r < 0.74:
@@ -158,8 +182,16 @@ def _gen_ops(rng, cfg, n):
             ops.append(["ecp"])
         elif r < 0.94:
             ops.append(["efp"])
-        elif r < 0.97:
+        elif r < 0.955:
             ops.append(["toggle"])
+        elif r < 0.97:
+            # game mode started without request_to_start_game (documented bypass event)
+            k = rng.random()
+            if k < 0.4:
+                ops.append(["credits_reset"])
+            elif k < 0.6:
+                ops.append(["end_game"])
+            ops.append(["game_start_event"])
         elif r < 0.985:
             ops.append(["credits_reset"])
         else:
@@ -307,11 +339,14 @@ def run_case(case):
     den = model.upg
     unit = cm.unit_rule(price, coin_vals)
 
-    clauses = {"balance": 0, "bounds": 0, "gate": 0, "deduct": 0, "earnings": 0, "display": 0, "coin_once": 0}
+    clauses = {"balance": 0, "bounds": 0, "gate": 0, "deduct": 0, "earnings": 0, "display": 0, "coin_once": 0,
+               "first_player_gate": 0}
     obs = {"steps": 0, "coins_accepted": 0, "coins_in_free_play": 0, "players_added_credit": 0,
            "players_added_free": 0, "requests_denied": 0, "requests_approved": 0, "games_started": 0,
            "games_ended": 0, "burst_ops": 0, "toggles": 0, "cap_clamps": 0, "tier_bonuses": 0, "tier_wraps": 0,
-           "expiry_frac": 0, "expiry_all": 0, "forks": 0, "hyp_overflow": 0, "boot_free_play": int(cfg["free_play"])}
+           "expiry_frac": 0, "expiry_all": 0, "forks": 0, "hyp_overflow": 0, "boot_free_play": int(cfg["free_play"]),
+           "held_game_starts": 0, "ops_in_hold_window": 0, "game_start_events": 0, "first_player_denied": 0,
+           "first_player_approved": 0, "mode_switch_between_request_and_add": 0}
     viol = []
     seen_sigs = set()
     trace = []
@@ -362,13 +397,44 @@ def run_case(case):
         def rec(kind, **data):
             envlog.append((vm.now(), kind, units(), data))
 
+        # context of the game that is starting / running (set live by handlers and ops)
+        live = {"holding": False, "held": False, "window_ops": 0, "bypass": False}
+        hold_s = float(cfg.get("hold_s", 0) or 0)
+
+        def on_game_stopped(**kwargs):
+            rec("game_stopped")
+            live.update(holding=False, held=False, window_ops=0, bypass=False)
+
+        def hold_game_starting(queue=None, **kwargs):
+            """Keep the game_starting queue event waiting for the generated virtual delay."""
+            if not hold_s or queue is None:
+                return
+            obs["held_game_starts"] += 1
+            live.update(holding=True, held=True, window_ops=0)
+            queue.wait()
+
+            def release(*args):
+                live["holding"] = False
+                queue.clear()
+            m.clock.schedule_once(release, hold_s)
+
+        ev.add_handler("game_starting", hold_game_starting, priority=1)
+        # inputs that are EVENTS take effect when MPF dispatches them, which may be after other events of the same
+        # instant (e.g. the release of a held game_starting): the model applies them in MPF's dispatch order
+        ev.add_handler("enable_credit_play", lambda **kwargs: rec("mode_ev", to="credit"), priority=LO)
+        ev.add_handler("enable_free_play", lambda **kwargs: rec("mode_ev", to="free"), priority=LO)
+        ev.add_handler("toggle_credit_play", lambda **kwargs: rec("mode_ev", to="flip"), priority=LO)
+        ev.add_handler("credits_reset", lambda **kwargs: rec("credits_reset_ev"), priority=LO)
+        ev.add_handler("c20_award", lambda **kwargs: rec("award_ev"), priority=LO)
         ev.add_handler("mode_game_started", lambda **kwargs: rec("game_started"), priority=HI)
-        ev.add_handler("mode_game_stopped", lambda **kwargs: rec("game_stopped"), priority=HI)
+        ev.add_handler("mode_game_stopped", on_game_stopped, priority=HI)
         ev.add_handler("ball_starting", lambda **kwargs: rec("ball_starting", player=kwargs.get("player"),
                                                           ball=kwargs.get("ball")), priority=HI)
         ev.add_handler("player_added", lambda **kwargs: rec("pa_pre", num=kwargs.get("num")), priority=HI)
         ev.add_handler("player_added", lambda **kwargs: rec("pa_post", num=kwargs.get("num")), priority=LO)
-        ev.add_handler("player_add_request", lambda **kwargs: rec("par_pre"), priority=HI)
+        ev.add_handler("player_add_request", lambda **kwargs: rec(
+            "par_pre", nplayers=len(m.game.player_list) if m.game else None, held=live["held"],
+            window_ops=live["window_ops"], bypass=live["bypass"]), priority=HI)
         ev.add_handler("player_add_request", lambda **kwargs: rec("par_ok"), priority=LO)
         ev.add_handler("request_to_start_game", lambda **kwargs: rec("rts_pre"), priority=HI)
         ev.add_handler("request_to_start_game", lambda **kwargs: rec("rts_ok"), priority=LO)
@@ -417,7 +483,7 @@ def run_case(case):
                 return "C20:float_truncation_in_unit_arithmetic"
             return None
 
-        st = {"cap_taint": False, "root": None}
+        st = {"cap_taint": False, "root": None, "first_req": None, "players_seen": 0, "award_want": 0}
         fragile = _float_fragile(cfg)
         pending_ok = []      # balances (units) at approved player_add_requests not yet matched to a player_added
 
@@ -428,6 +494,8 @@ def run_case(case):
                 model.advance(te)
                 if kind == "game_started":
                     obs["games_started"] += 1
+                    st["players_seen"] = 0
+                    st["first_req"] = None
                     model.game_started()
                 elif kind == "game_stopped":
                     obs["games_ended"] += 1
@@ -436,24 +504,51 @@ def run_case(case):
                 elif kind == "ball_starting":
                     if data.get("player") == 1 and data.get("ball") == 2:
                         model.ball2_player1()
+                elif kind == "mode_ev":
+                    to = data["to"]
+                    if to == "flip":
+                        to = "free" if model.mode == "credit" else "credit"
+                    model.set_mode(to)
+                elif kind == "credits_reset_ev":
+                    model.clear_all()
+                elif kind == "award_ev":
+                    if model.mode == "credit":
+                        model.award(int(cfg["award"]), te)
+                        st["award_want"] += 1
                 elif kind in ("par_pre", "rts_pre"):
                     pre = (kind, u)
+                    if kind == "par_pre" and data.get("nplayers") == 0:
+                        # the first player of a game: its add is a step of its own after the start approval
+                        st["first_req"] = {"units": u, "approved": False, "mode": model.mode}
+                        if model.mode == "credit" and (data.get("bypass") or
+                                                       (data.get("held") and data.get("window_ops"))):
+                            clauses["first_player_gate"] += 1
+                            obs["first_player_approved" if u >= den else "first_player_denied"] += 1
                 elif kind in ("par_ok", "rts_ok"):
                     obs["requests_approved"] += 1
+                    if kind == "par_ok" and st["first_req"] is not None:
+                        st["first_req"]["approved"] = True
                     if model.mode == "credit":
                         clauses["gate"] += 1
                         if u < den:
                             add_violation("gate", unit_sig() or "C20:request_approved_without_full_price",
                                           {"request": kind, "credit_units": u, "units_per_game": den})
                     if kind == "par_ok":
-                        pending_ok.append(u)
+                        pending_ok.append((u, model.mode))
                 elif kind == "pa_pre":
                     pre = ("pa_pre", u)
                 elif kind == "pa_post":
-                    at_request = pending_ok.pop(0) if pending_ok else None
+                    st["players_seen"] += 1
+                    at_request, mode_at_request = pending_ok.pop(0) if pending_ok else (None, None)
                     before = pre[1] if pre and pre[0] == "pa_pre" else None
                     if model.mode != "credit":
                         obs["players_added_free"] += 1
+                        continue
+                    if mode_at_request == "free":
+                        # approved in free play, credit play enabled before player_added was dispatched (same
+                        # instant): statement silent on whether this player is charged -- accept what MPF did
+                        obs["mode_switch_between_request_and_add"] += 1
+                        model.player_added(resync_to=F(u) / den)
                         continue
                     obs["players_added_credit"] += 1
                     if before is None:
@@ -462,11 +557,15 @@ def run_case(case):
                     if before < den:
                         if at_request is not None and at_request >= den:
                             sig = "C20:burst_player_add_single_credit"
+                        elif at_request is None:
+                            # no approved player_add_request is outstanding: the veto was ignored / bypassed
+                            sig = "C20:player_added_after_denied_request"
                         else:
                             sig = "C20:player_added_without_full_price"
                         add_violation("gate", unit_sig() or sig,
                                       {"credit_units_at_player_added": before, "credit_units_at_request": at_request,
-                                       "units_per_game": den, "deducted": before - u, "num": data.get("num")})
+                                       "units_per_game": den, "deducted": before - u, "num": data.get("num"),
+                                       "first_player_request": st["first_req"]})
                         model.player_added(resync_to=F(u) / den)
                         continue
                     clauses["deduct"] += 1
@@ -518,6 +617,12 @@ def run_case(case):
             if model.max and b > model.max:
                 add_violation("bounds", psig or "C20:max_credits_exceeded",
                               {"step": i, "op": op, "observed_credits": _fs(b), "max_credits": model.max})
+            # -- every player of the running game went through player_added (where gate/deduct were evaluated)
+            if m.game is not None and len(m.game.player_list) > st["players_seen"]:
+                add_violation("gate", "C20:player_in_game_without_player_added",
+                              {"step": i, "op": op, "players": len(m.game.player_list),
+                               "player_added_seen": st["players_seen"]})
+                st["players_seen"] = len(m.game.player_list)
             # -- callbacks per physical coin / service credit / credit event
             if cb_expect is not None:
                 clauses["coin_once"] += 1
@@ -608,6 +713,9 @@ def run_case(case):
                 cb = None
                 t0 = vm.now()
                 c0 = dict(_COUNTS)
+                if live["holding"] and kind != "wait":
+                    live["window_ops"] += 1
+                    obs["ops_in_hold_window"] += 1
                 if kind in ("coin", "coins"):
                     idxs = [op[1]] if kind == "coin" else list(op[1])
                     idxs = [j % len(coin_vals) for j in idxs]
@@ -635,13 +743,10 @@ def run_case(case):
                     vm.advance(SETTLE)
                     cb = [want, _COUNTS["svc_cb"] - c0["svc_cb"]]
                 elif kind == "award":
+                    st["award_want"] = 0
                     ev.post("c20_award")
-                    want = 0
-                    if model.mode == "credit":
-                        model.award(int(cfg["award"]), t0)
-                        want = 1
                     vm.advance(SETTLE)
-                    cb = [want, _COUNTS["award_cb"] - c0["award_cb"]]
+                    cb = [None, _COUNTS["award_cb"] - c0["award_cb"]]      # expectation known after consume_env
                 elif kind in ("start", "starts"):
                     n = 1 if kind == "start" else int(op[1])
                     if n > 1:
@@ -667,24 +772,26 @@ def run_case(case):
                         m.playfield.available_balls = 0
                 elif kind == "wait":
                     vm.advance(max(0.0, min(float(op[1]), HORIZONS["max_wait_s"])))
+                elif kind == "game_start_event":
+                    if not m.game:
+                        obs["game_start_events"] += 1
+                        live["bypass"] = True
+                        ev.post("game_start")
+                    vm.advance(SETTLE)
                 elif kind == "ecp":
                     obs["toggles"] += 1
                     ev.post("enable_credit_play")
-                    model.set_mode("credit")
                     vm.advance(SETTLE)
                 elif kind == "efp":
                     obs["toggles"] += 1
                     ev.post("enable_free_play")
-                    model.set_mode("free")
                     vm.advance(SETTLE)
                 elif kind == "toggle":
                     obs["toggles"] += 1
                     ev.post("toggle_credit_play")
-                    model.set_mode("free" if model.mode == "credit" else "credit")
                     vm.advance(SETTLE)
                 elif kind == "credits_reset":
                     ev.post("credits_reset")
-                    model.clear_all()
                     vm.advance(SETTLE)
                 elif kind == "earnings_reset":
                     ev.post("earnings_reset")
@@ -692,7 +799,14 @@ def run_case(case):
                     vm.advance(SETTLE)
                 else:
                     continue
+                if not m.game:          # fake playfield bookkeeping: nothing is left on it between games
+                    m.playfield.balls = 0
+                    m.playfield.available_balls = 0
+                    if live["bypass"] and kind != "game_start_event":
+                        live["bypass"] = False
                 consume_env()
+                if cb is not None and cb[0] is None:
+                    cb[0] = st["award_want"]
                 if cb is not None and {"coin": "coin_cb", "coins": "coin_cb", "svc": "svc_cb",
                                        "award": "award_cb"}[kind] not in _WRAPPED:
                     cb = None           # callback not observable in this tree: no callback-count oracle
